@@ -180,16 +180,39 @@ def make_array(np, rng, dt, raws, shape):
 
 # ---------------------------------------------------------------- one case
 
+def pipeline_float(blk, f):
+    """value of the pairwise z/y/x pipeline in IEEE double arithmetic (Python
+    floats), contributors in zz, yy, xx order.  Classification only."""
+    fx, fy, fz = f
+    dims = [fz, fy, fx]
+    arr = [float(v) for v in blk]          # int/Fraction -> double, correctly rounded
+    for ax in range(3):
+        if dims[ax] == 2:
+            inner = 1
+            for d in dims[ax + 1:]:
+                inner *= d
+            outer = len(arr) // (2 * inner)
+            arr = [0.5 * (arr[o * 2 * inner + k] + arr[o * 2 * inner + inner + k])
+                   for o in range(outer) for k in range(inner)]
+            dims[ax] = 1
+    return arr[0]
+
+
 def avg_region(dt, blk, f, got, want):
+    """A deviation from the exact mean is a known finding only when some float64
+    operation of the pipeline is inexact AND the result is exactly what the
+    float64 pipeline value gives after correct rounding and saturation
+    (so a wrap-around or a wrong rounding mode is never excused)."""
     if dt == "uint64" and all(v < 2 ** 49 for v in blk if v.denominator == 1):
         return None       # Downscale.avg_uint64_guard holds: proved exact (C07_avg_exact_on_guard)
+    if dt not in ("uint64", "float32") or pipeline_exact(blk, f):
+        return None
+    pv = pipeline_float(blk, f)
     if dt == "uint64":
-        q = sum(blk) / len(blk)
-        if got == 0 and q >= 2 ** 64 - 1024:
-            return "avg-uint64-top-wraps-to-zero"
-        if not pipeline_exact(blk, f):
+        if got == K.ref_nearest("uint64", Fraction(pv)):
             return "avg-uint64-float64-precision"
-    if dt == "float32" and not pipeline_exact(blk, f):
+        return None
+    if got == K.f32_bits(pv):               # struct packs with round-to-nearest-even
         return "avg-float32-double-rounding"
     return None
 
@@ -407,6 +430,7 @@ def gen_cases(R):
             cases.append(("auto:segmentation", dt, sh, [rng.randrange(1, 4) for _ in range(3)], None, raws, "auto"))
     # the recorded witnesses of the findings
     cases.append(("average", "uint64", (1, 1, 1, 2), [2, 1, 1], None, [2 ** 64 - 1, 2 ** 64 - 1], "witness"))
+    cases.append(("average", "uint64", (1, 1, 1, 2), [2, 1, 1], None, [2 ** 64 - 1, 2 ** 64 - 1023], "witness"))
     cases.append(("average", "uint64", (1, 1, 1, 2), [2, 1, 1], None, [2 ** 53 + 1, 2 ** 53 + 1], "witness"))
     cases.append(("average", "float32", (1, 1, 2, 2), [2, 2, 1], None,
                   [K.f32_bits(1.0 + 2.0 ** -23), K.f32_bits(0.0), K.f32_bits(1.0), K.f32_bits(2.0 ** -100)],
